@@ -171,8 +171,8 @@ def coll_plan(pid, tier):
         jobs = [grid_job("box-chains", "box", 17, tier)]
         if not q:
             jobs.append(grid_job("box-chains-dbg", "box", 17, tier, build="dbg"))
-        return {"level": "model_checking", "jobs": jobs, "owns_crashes": True, "rule": "exhaustive enumeration of conversion chains (constructor x up to 3 (thorough 4) ownership-preserving steps x terminal) over 11 value families, executed on bumpalo::boxed::Box and std::boxed::Box; observations, destructor ledgers and the arena's ledger are compared",
-                "assumptions": COLL_ASSUME, "bounds": {"chain_steps": 3 if q else 4, "families": 11}, "build_profiles": ("release",) if q else ("release", "dbg")}
+        return {"level": "model_checking", "jobs": jobs, "owns_crashes": True, "rule": "exhaustive enumeration of conversion chains (constructor x up to 3 (thorough 4) ownership-preserving steps x terminal) over 12 value families, executed on bumpalo::boxed::Box and std::boxed::Box; observations, destructor ledgers and the arena's ledger are compared; plus a grid over every forwarding impl (comparisons, Hash, Hasher::write_*, Display/Debug under format specs, iterator method pairs, Future, Borrow/AsRef, pin_in, Default) on value pairs",
+                "assumptions": COLL_ASSUME, "bounds": {"chain_steps": 3 if q else 4, "families": 12, "forwarding_cases": 174}, "build_profiles": ("release",) if q else ("release", "dbg")}
     return None
 
 
